@@ -162,8 +162,18 @@ func runC11(c *Ctx) {
 
 	// validator and composer use the same decoder, on the patch's own value
 	decode := lib.Func("DecodePatch")
-	applyJSON := c.Fn(pComposer, "applyJSON")
-	c.Check("C11.K1", "same-decoder", len(callsTo(V, decode)) == 1 && applyJSON != nil && len(callsTo(applyJSON, decode)) == 1, V.Pos(), "validator and composer both decode the patch with jsonpatch.DecodePatch")
+	applyJSON := c.composerHandlers()["ietf-json-patch"]
+	deepCalls := func(f *ssa.Function) int {
+		n := 0
+		if f == nil {
+			return 0
+		}
+		for _, g := range c.reachableModuleFuncs([]*ssa.Function{f}) {
+			n += len(callsTo(g, decode))
+		}
+		return n
+	}
+	c.Check("C11.K1", "same-decoder", deepCalls(V) == 1 && applyJSON != nil && deepCalls(applyJSON) == 1, V.Pos(), "validator and composer (the ietf-json-patch handler and its helpers) both decode the patch with jsonpatch.DecodePatch, once")
 	// accessors address keys/services through the same constants
 	for _, acc := range []struct{ typ, m, konst string }{{"Document", "PublicKeys", pk}, {"DIDDocument", "PublicKeys", pk}, {"DIDDocument", "Services", svc}} {
 		f := c.Method("document", acc.typ, acc.m)
